@@ -520,6 +520,47 @@ def run_items(ck: Check, genv, defs):
                           "broken": "correspondence TagTree.parse_template >= strict parser (theorem C21_parsed_report)"}, no_input=True)
 
 
+def register_change_family(ck: Check) -> None:
+    """One Environment analysed, its tag register changed (a tag added, a tag removed), and analysed again: the second analysis
+    judges names against the register AS IT IS NOW -- a source that now parses in strict mode has nothing reported, a removed tag's
+    name is reported unknown (oracle only: the model takes the register as a parameter of each analysis)."""
+    from liquid import Environment
+    from liquid.extra import WithTag
+
+    src_with = "{% with a: 1 %}{{ a }}{% endwith %}"
+    src_tr = "{% tablerow i in (1..2) %}x{% endtablerow %}"
+    for first in (src_with, src_tr, "{% if a %}{% endif %}"):
+        env = Environment()
+        env.analyze_tags_from_string(first)                         # some analysis before the register changes
+        env.add_tag(WithTag)
+        rep = env.analyze_tags_from_string(src_with)
+        ok_parse = True
+        try:
+            env.from_string(src_with)
+        except Exception:  # noqa: BLE001
+            ok_parse = False
+        got = (sorted(rep.unknown_tags), sorted(rep.unclosed_tags), sorted(rep.unexpected_tags))
+        ck.note_case(("register-change", "add", first))
+        ck.count("register-change")
+        if ok_parse and got != ([], [], []):
+            ck.violation("impl-violation", "false-alarm-after-tag-registered",
+                         f"Environment analysed ({first!r}), then add_tag(WithTag): {src_with!r} parses in strict mode but is reported "
+                         f"unknown/unclosed/unexpected = {got}",
+                         {"type": "register-change", "first": first, "change": "add-with", "source": src_with, "report": [list(x) for x in got]})
+        env2 = Environment()
+        env2.analyze_tags_from_string(first)
+        del env2.tags["tablerow"]
+        rep2 = env2.analyze_tags_from_string(src_tr)
+        ck.note_case(("register-change", "remove", first))
+        ck.count("register-change")
+        if "tablerow" not in rep2.unknown_tags:
+            ck.violation("impl-violation", "unknown-not-reported-after-tag-removed",
+                         f"Environment analysed ({first!r}), then tablerow removed from env.tags: {src_tr!r} does not report tablerow as "
+                         f"unknown (unknown = {sorted(rep2.unknown_tags)})",
+                         {"type": "register-change", "first": first, "change": "remove-tablerow", "source": src_tr,
+                          "report": sorted(rep2.unknown_tags)})
+
+
 def run(ck: Check) -> None:
     ck.rule = (
         "all tag-name sequences of length <=4 (quick) / <=5 over 14 names (block, inner, end, inline, unknown, stray and bad end tags) in "
@@ -545,6 +586,7 @@ def run(ck: Check) -> None:
                       "plus the sources accepted only through the if/unless extraneous-else skip rule (validated on every generated source that "
                       "parses; the older TagAudit.wellnested grammar is still validated on the name sequences)"]
     ck.proof()
+    register_change_family(ck)
     genv = {k: g_env(k) for k in ("default", "extra")}
     cases, expected, meta = [], [], []
     wcases, wexpected, wmeta = [], [], []
@@ -615,6 +657,25 @@ def run(ck: Check) -> None:
 
 def replay(data) -> int:
     case = data["case"]
+    if case.get("type") == "register-change":
+        class _Ck:
+            def __init__(self):
+                self.v = []
+
+            def note_case(self, *a, **k):
+                pass
+
+            def count(self, *a, **k):
+                pass
+
+            def violation(self, kind, sig, what, d, no_input=False):
+                self.v.append(what)
+        ck_ = _Ck()
+        register_change_family(ck_)  # type: ignore[arg-type]  (a closed family of six scenarios: re-run, report what fails)
+        for w in ck_.v:
+            print(w)
+        print(("VIOLATION reproduced" if ck_.v else "not reproduced") + f" property={data['property']}")
+        return 1 if ck_.v else 0
     if case.get("type") == "items":
         items = case["items"]
         rep = analyse_src(case["env"], case["source"])
